@@ -289,6 +289,9 @@ pub enum Op {
         pi: Pi,
     },
     Pad(u16),
+    /// like `Pad`, but every appended gate carries its own selector tuple
+    /// (q_l = a distinct constant on the ZERO witness), so nothing repeats
+    PadDistinct(u16),
 }
 
 impl Op {
@@ -332,6 +335,7 @@ impl Op {
             Op::FixedSeam { .. } => "fixed_base_signed_digits(seam)",
             Op::Raw { .. } => "raw_row",
             Op::Pad(_) => "pad",
+            Op::PadDistinct(_) => "pad(distinct selector tuples)",
         }
     }
 
@@ -1008,6 +1012,12 @@ pub fn run_ops(
             Op::Pad(k) => {
                 for _ in 0..*k {
                     c.append_gate(Constraint::new());
+                }
+            }
+            Op::PadDistinct(k) => {
+                for _ in 0..*k {
+                    let v = F::from(1_000_003u64 + c.constraints() as u64);
+                    c.append_gate(Constraint::new().left(v).a(Composer::ZERO));
                 }
             }
         }
